@@ -473,6 +473,16 @@ int gt_is_valid(const gt_t a) {
 		return 0;
 	}
 
+#if FP_PRIME <= 1536
+	/* Members lie in the cyclotomic subgroup. Decide that first: the compressed
+	 * squarings used below are only defined inside it and otherwise fail with
+	 * an inversion of zero (e.g. for 0 and for every element of Fp or Fp2). */
+	if (gt_cmp_dig(a, 0) == RLC_EQ ||
+			!RLC_CAT(RLC_GT_LOWER, test_cyc)((void *)a)) {
+		return 0;
+	}
+#endif
+
 	bn_null(n);
 	gt_null(s);
 	gt_null(t);
